@@ -39,9 +39,9 @@ $(B)/toctou.asan: worlds/toctou.cpp $(HDRS) $(SIMH) | $(B)
 	$(CXX) $(ASAN) $< -o $@ $(LIBS) -Wl,--wrap=malloc
 
 $(B)/bulk: worlds/bulk.cpp $(HDRS) $(SIMH) | $(B)
-	$(CXX) $(PLAIN) $< -o $@ $(LIBS) -Wl,--wrap=malloc
+	$(CXX) $(PLAIN) $< -o $@ $(LIBS) -Wl,--wrap=malloc -Wl,--wrap=free
 $(B)/bulk.asan: worlds/bulk.cpp $(HDRS) $(SIMH) | $(B)
-	$(CXX) $(ASAN) $< -o $@ $(LIBS) -Wl,--wrap=malloc
+	$(CXX) $(ASAN) $< -o $@ $(LIBS) -Wl,--wrap=malloc -Wl,--wrap=free
 
 $(B)/transition.hooks: worlds/transition.cpp $(B)/guestlib.o $(HDRS) $(SIMH) | $(B)
 	$(CXX) $(PLAIN) -DTR_HOOKS -DSIM_BUILD_NAME='"hooks"' $< $(B)/guestlib.o -o $@ $(LIBS)
